@@ -123,6 +123,7 @@ register("BIT-TAGGED", rules_bit.rule_bit_tagged)
 register("BIT-DELEGATION", rules_bit.rule_bit_delegation)
 register("BIT-STATE", rules_bit.rule_bit_state)
 register("MOD-WINDOW", rules_bit.rule_mod_window)
+register("MOD-AGING", rules_bit.rule_mod_aging)
 register("EPOCH-ARITH", rules_bit.rule_epoch_arith)
 
 BITTRUST = ["rustc MIR construction and const evaluation", "the abstract transfer functions of circlint/bitabs.py (bit provenance, "
@@ -187,5 +188,6 @@ for _p, _rules in (("C01", ["CW-ALLOC-INIT", "CW-DEFER-WRAPPER"]), ("C02", ["EBR
                    ("C13", ["WRAP-ATOMICS", "EBR-DEFAULT-COLLECTOR", "CW-DEFER-WRAPPER"]),
                    ("C14", ["WRAP-ATOMICS", "EBR-DEFAULT-COLLECTOR"]), ("C17", ["WRAP-ATOMICS"]), ("C18", ["WRAP-ATOMICS"]),
                    ("C20", ["EBR-DEFAULT-COLLECTOR"]),
+                   ("C06", ["MOD-AGING"]),
                    ("C13", ["EBR-INIT"]), ("C14", ["EBR-INIT"]), ("C16", ["EBR-INIT"]), ("C18", ["EBR-INIT"]), ("C20", ["EBR-INIT"])):
     registry.PROPS[_p]["rules"] += [x for x in _rules if x not in registry.PROPS[_p]["rules"]]
